@@ -439,10 +439,9 @@ func damageStream(kind int, b []byte) []byte {
 		if i := bytes.IndexByte(b, '\n'); i >= 0 {
 			return append(append([]byte{}, b...), b[:i+1]...)
 		}
-	case 12: // a CHANGED copy of the first document in front: the later, original document must win
+	case 12: // a CHANGED copy (another name) of the first document in front: the later, original document must win
 		if i := bytes.IndexByte(b, '\n'); i >= 0 {
-			first := bytes.Replace(b[:i+1], []byte("\"replication_factor_min\":"), []byte("\"replication_factor_min\":7"), 1)
-			first = bytes.Replace(first, []byte("\"name\":\""), []byte("\"name\":\"changed "), 1)
+			first := bytes.Replace(b[:i+1], []byte("\"name\":\""), []byte("\"name\":\"changed "), 1)
 			return append(append([]byte{}, first...), b...)
 		}
 	}
